@@ -781,9 +781,10 @@ Proof.
       as (_ & _ & Ht & -> & -> & N1 & N2 & N3 & N4 & N5 & N6).
     destruct (names s !! hash name) as [ns0|] eqn:Eg.
     + destruct (stored_nontld _ _ _ Inv Eg) as (Hn0 & _ & Ho0).
-      eapply (sh_meta _ _ _ (hash name) ns0); [|apply no_transfer_nil].
+      apply (sh_meta _ _ _ (hash name) ns0
+               (mkNS None name (now c + expire * millisecondsInSecond) None)); [|apply no_transfer_nil].
       unfold acc_meta. rewrite (Ho0 Ht), Hn0. cbn [ns_owner ns_name]. repeat split; try assumption.
-    + eapply (sh_newtld _ _ _ name); [|reflexivity].
+    + apply (sh_newtld _ _ _ name (mkNS None name (now c + expire * millisecondsInSecond) None)); [|reflexivity].
       unfold acc_newtld. cbn [ns_owner ns_name]. repeat split; try assumption.
   - (* Transfer *)
     apply (transfer_inv _ _ _ _ _ _ _ Inv) in H
@@ -795,12 +796,16 @@ Proof.
   - (* Renew *)
     apply (renew_inv _ _ _ _ _ _ _ Inv) in H
       as (ns0 & _ & _ & Hg & _ & _ & _ & _ & _ & -> & -> & ->).
-    eapply (sh_meta _ _ _ (hash name) ns0); [|apply no_transfer_renew].
+    apply (sh_meta _ _ _ (hash name) ns0
+             (mkNS (ns_owner ns0) (ns_name ns0) (ns_exp ns0 + years * millisecondsInYear) (ns_admin ns0)));
+      [|apply no_transfer_renew].
     unfold acc_meta. cbn [names supply balances acctok set_names ns_owner ns_name].
     repeat split; try assumption.
   - (* SetAdmin *)
     apply (set_admin_inv _ _ _ _ _ _ _ Inv) in H as (ns0 & Hg & _ & _ & -> & -> & ->).
-    eapply (sh_meta _ _ _ (hash name) ns0); [|apply no_transfer_admin].
+    apply (sh_meta _ _ _ (hash name) ns0
+             (mkNS (ns_owner ns0) (ns_name ns0) (ns_exp ns0) admin));
+      [|apply no_transfer_admin].
     unfold acc_meta. cbn [names supply balances acctok set_names ns_owner ns_name].
     repeat split; try assumption.
   - apply add_record_keeps in H as [Hk ->].
